@@ -12,7 +12,7 @@ def record(repo=None, timeout=600):
     repo = repo or os.environ.get("PMV_REPO", "/repo")
     wd = tlc.workdir("suite")
     out = os.path.join(wd, "suite.json")
-    env = dict(os.environ, PMV_TRACE=out, PYTHONPATH=f"/verif/harness:{repo}", PYTHONHASHSEED="0", PYTHONDONTWRITEBYTECODE="1")
+    env = dict(os.environ, PMV_TRACE=out, PYTHONPATH=f"{os.path.join(tlc.VERIF, 'harness')}:{repo}", PYTHONHASHSEED="0", PYTHONDONTWRITEBYTECODE="1")
     p = subprocess.run(["/venv/bin/python", "-m", "pytest", "-q", "-p", "no:cacheprovider", "-p", "pmv.pmv_tracer", "--timeout=600", "tests"],
                        cwd=repo, env=env, capture_output=True, text=True, timeout=timeout)
     if not os.path.exists(out):
